@@ -93,6 +93,19 @@ def generate(rng, tier):
         actors.append({"name": "adj", "ops": ops})
     rng.shuffle(actors)
     actors.append({"name": "zprobe", "after": 4096, "ops": [{"op": "levels", "on": "R"}]})
+    if rng.random() < 0.12:
+        # fractional (dyadic) amounts: float levels instead of int levels
+        def halve(node):
+            if isinstance(node, dict):
+                if "amounts" in node:
+                    node["amounts"] = {k: v * 0.5 for k, v in node["amounts"].items()}
+                for value in node.values():
+                    halve(value)
+            elif isinstance(node, list):
+                for item in node:
+                    halve(item)
+        halve(actors)
+        caps = {k: v * 0.5 for k, v in caps.items()}
     return {"property": ID,
             "scenario": {"resources": {"R": {"kind": kind, "levels": caps}}, "actors": actors},
             "plan": [], "config": {"waitq": rng.choice(["heap", "sd"])}}
@@ -248,6 +261,13 @@ class Monitor:
                             "%s waits for %r of %s although %r is available as the clock "
                             "advances to %r" % (block["actor"], block["amounts"], name, levels,
                                                 self.last_time)))
+        # shares (what a block borrowed, from which nested blocks borrow) are resources too
+        for name, obj in world.res.items():
+            if name.startswith("S") and name not in self.supplies:
+                for key, level in dict(obj.levels).items():
+                    if level < 0:
+                        self.bad.append(("negative", "share %s.%s = %r at tick %d"
+                                         % (name, key, level, tick)))
         phases = [b["phase"] for b in self.blocks.values()]
         self.states.add((min(phases.count("acquiring"), 3), min(phases.count("held"), 3),
                          min(phases.count("releasing"), 2), min(phases.count("torn"), 2),
